@@ -148,6 +148,8 @@ func (c *Cfg) OpString(op wx.Op) string {
 		return fmt.Sprintf("%s(%s)", n, slotName(op.A))
 	case OpAdd, OpRemove, OpRelGet:
 		return fmt.Sprintf("%s(%s, %s)", n, slotName(op.A), c.compName(op.B))
+	case OpReadDead:
+		return fmt.Sprintf("%s(%s, %s)", [...]string{"Has", "Get"}[op.C], slotName(op.A), c.compName(op.B))
 	case OpAddTwo, OpRemoveTwo:
 		return fmt.Sprintf("%s(%s, %s, %s)", n, slotName(op.A), c.compName(op.B), c.compName(op.C))
 	case OpExchange:
